@@ -4,12 +4,12 @@
    path of the same automaton (trace correspondence, DESIGN.md 4.2 driver 2).  Executable only. *)
 From DC Require Import DCPrelude Conc.
 
-Inductive phase := PhStart | PhCreated | PhAtBegin | PhInTxn | PhBodyDone | PhAfter | PhFetched | PhTimeout | PhSelected.
+Inductive phase := PhStart | PhCreated | PhAtBegin | PhInTxn | PhBodyDone | PhAfter | PhFetched | PhTimeout | PhSelected | PhMissed.
 
 Definition phase_eqb (a b : phase) : bool :=
   match a, b with
   | PhStart, PhStart | PhCreated, PhCreated | PhAtBegin, PhAtBegin | PhInTxn, PhInTxn | PhBodyDone, PhBodyDone
-  | PhAfter, PhAfter | PhFetched, PhFetched | PhTimeout, PhTimeout | PhSelected, PhSelected => true
+  | PhAfter, PhAfter | PhFetched, PhFetched | PhTimeout, PhTimeout | PhSelected, PhSelected | PhMissed, PhMissed => true
   | _, _ => false
   end.
 
@@ -39,7 +39,10 @@ Definition trans_ok (early : bool) (p : phase) (t : tag) (q : phase) : bool :=
   | PhFetched, TNone, PhStart => true                 (* peek / peekitem read the file and leave it *)
   | PhTimeout, TRemove, PhStart => true
   | PhTimeout, TReturn, PhStart => true
-  | PhSelected, TOpenRead, PhStart => true
+  | PhSelected, TOpenRead, PhStart => true            (* the file was there, or the lookup gives up *)
+  | PhSelected, TOpenRead, PhMissed => true           (* the file is gone: the lookup looks the row up again *)
+  | PhMissed, TSelect, PhSelected => true
+  | PhMissed, TSelect, PhStart => true                (* the second SELECT finds no row, or an inline value *)
   | _, _, _ => false
   end.
 
@@ -53,10 +56,11 @@ Definition phase_of {D R} (p : pc D R) : phase :=
   | Cleaning _ _ _ | Fetching _ _ => PhAfter
   | FetchRm _ _ => PhFetched
   | TimeoutRm _ => PhTimeout
-  | ReadOpen _ _ _ => PhSelected
+  | ReadOpen _ _ _ _ _ => PhSelected
+  | ReadAgain _ _ => PhMissed
   end.
 
-Definition all_phases := [PhStart; PhCreated; PhAtBegin; PhInTxn; PhBodyDone; PhAfter; PhFetched; PhTimeout; PhSelected].
+Definition all_phases := [PhStart; PhCreated; PhAtBegin; PhInTxn; PhBodyDone; PhAfter; PhFetched; PhTimeout; PhSelected; PhMissed].
 
 (* NFA run over the observable tags (TNone moves are silent) *)
 Definition silent_closure1 (early : bool) (ps : list phase) : list phase :=
